@@ -539,11 +539,13 @@ class Bench:
         self.header = "P %s %s %s " % ("~" if self.initial is None else enc_ctx(self.initial), enc_registry(self.ctxs),
                                        "1" if sig.get("ign") else "0")
         self.fp0 = fingerprint(self.parser)
+        self.rebuilt = 0
         self.interesting = set(self.view.names)
         for c in self.view.tasks + ([self.view.initial] if self.view.initial else []):
             self.interesting |= set(c["flags"]) | set(c["inverse"])
 
     def rebuild(self):
+        self.rebuilt += 1
         self.parser, self.initial, self.ctxs = build(self.sig)
         self.fp0 = fingerprint(self.parser)
 
@@ -702,6 +704,10 @@ def run_bench(bench, argvs, ctx, out, drv, tag):
         if why:
             out.fail(case, why)
         prev = argv
+        if bench.rebuilt > 12:
+            # the parser object is being modified by nearly every parse: the point is made, stop paying for rebuilds
+            out.hist["bench_abandoned_after_repeated_impurity"] += 1
+            break
 
 
 def run(ctx):
